@@ -738,6 +738,12 @@ impl Mp4TrackWriter {
                     // profile, compatibility and level are taken from bytes 1..=3
                     return Err(Error::InvalidData("sequence parameter set too short"));
                 }
+                if avc_config.seq_param_set.len() > u16::MAX as usize
+                    || avc_config.pic_param_set.len() > u16::MAX as usize
+                {
+                    // avcC stores the length of a parameter set in 16 bits
+                    return Err(Error::InvalidData("parameter set too long"));
+                }
                 trak.tkhd.set_width(avc_config.width);
                 trak.tkhd.set_height(avc_config.height);
 
